@@ -132,6 +132,9 @@ type predCase struct {
 	Pred   PX          `json:"pred"`
 	Rows   [][]gen.JV  `json:"rows"` // len(Outer)+len(Fields) values each
 	Target string      `json:"target,omitempty"`
+	// Then: a second predicate over the same schema and rows, sent after Pred in the same process (as the conjuncts of one WHERE
+	// clause are: each is a pushed-down predicate of its own).
+	Then *PX `json:"then,omitempty"`
 	// Mutation (sub unknown_function_flag only): which call node (pre-order) is altered and how.
 	MutNode int    `json:"mut_node,omitempty"`
 	Mut     string `json:"mut,omitempty"` // rename | add_arg | flip_strict | out_type
@@ -255,8 +258,22 @@ type callInfo struct {
 	name     string
 	idx      int // overload chosen by the typechecker
 	typeFn   bool
-	gotIdx   int  // overload bound after transport (-1: none)
-	nilAfter bool // Function is nil after transport
+	gotIdx   int    // overload bound after transport (-1: none)
+	nilAfter bool   // Function is nil after transport
+	argKinds string // TypeIDs of the static argument types (a nullable argument is a Union whatever is inside)
+	nullColl bool   // an argument is statically NULL | List, NULL | Object or NULL | Tuple
+}
+
+// isNullableCollection: NULL | <list, object or tuple> (strict functions see the collection, the TypeID of the argument is Union).
+func isNullableCollection(t octosql.Type) bool {
+	if t.TypeID != octosql.TypeIDUnion || octosql.Null.Is(t) != octosql.TypeRelationIs {
+		return false
+	}
+	switch octosql.NonNullable(t).TypeID {
+	case octosql.TypeIDList, octosql.TypeIDStruct, octosql.TypeIDTuple:
+		return true
+	}
+	return false
 }
 
 type walkInfo struct {
@@ -301,11 +318,16 @@ func walk(a, b physical.Expression, w *walkInfo) {
 			w.shapeDiff = fmt.Sprintf("call of %q arrived as call of %q", a.FunctionCall.Name, b.FunctionCall.Name)
 			return
 		}
-		w.calls = append(w.calls, callInfo{
+		ci := callInfo{
 			name: a.FunctionCall.Name, idx: overloadIndex(a.FunctionCall.Name, a.FunctionCall.FunctionDescriptor.Function),
 			typeFn: a.FunctionCall.FunctionDescriptor.TypeFn != nil,
 			gotIdx: overloadIndex(b.FunctionCall.Name, b.FunctionCall.FunctionDescriptor.Function), nilAfter: b.FunctionCall.FunctionDescriptor.Function == nil,
-		})
+		}
+		for _, arg := range a.FunctionCall.Arguments {
+			ci.argKinds += " " + arg.Type.TypeID.String()
+			ci.nullColl = ci.nullColl || isNullableCollection(arg.Type)
+		}
+		w.calls = append(w.calls, ci)
 	case physical.ExpressionTypeTypeAssertion:
 		if d := diffType(a.TypeAssertion.TargetType, b.TypeAssertion.TargetType); d != "" {
 			w.shapeDiff = "type assertion target: " + d
@@ -442,10 +464,93 @@ func hasInvalidUTF8Const(p PX) bool {
 	return false
 }
 
+// overloadPairClasses labels what the re-binding of type-function overloads has to tell apart: such overloads all serialise
+// alike, so the receiving side can only go by the arguments, and a nullable argument is a Union whatever is inside.
+//
+// With others == nil the pairs are those within calls (one predicate), otherwise one call of calls and one of others (two
+// predicates sent one after the other).
+func overloadPairClasses(calls, others []callInfo, where string) []string {
+	set := map[string]bool{}
+	for i, a := range calls {
+		if !a.typeFn {
+			continue
+		}
+		if a.nullColl && others == nil {
+			set["nullable_collection_argument"] = true
+			set[fmt.Sprintf("nullable_collection_argument_%s#%d", a.name, a.idx)] = true
+		}
+		partners := others
+		if others == nil {
+			partners = calls[i+1:]
+		}
+		for _, b := range partners {
+			if !b.typeFn || b.name != a.name || b.idx == a.idx {
+				continue
+			}
+			set["two_typefn_overloads_of_one_function_"+where] = true
+			if a.nullColl && b.nullColl {
+				set["two_typefn_overloads_with_nullable_collection_arguments_"+where] = true
+				if a.argKinds == b.argKinds {
+					lo, hi := a.idx, b.idx
+					if lo > hi {
+						lo, hi = hi, lo
+					}
+					set["two_typefn_overloads_nullable_collections_same_argument_type_ids_"+where] = true
+					set[fmt.Sprintf("two_typefn_overloads_nullable_collections_same_argument_type_ids_%s#%d+#%d", a.name, lo, hi)] = true
+				}
+			}
+		}
+	}
+	out := make([]string, 0, len(set))
+	for k := range set {
+		out = append(out, k)
+	}
+	sort.Strings(out)
+	return out
+}
+
+// predTransportProp checks c.Pred and then, in the same process (as it happens on one plugin connection), c.Then: the conjuncts
+// of a WHERE clause arrive as one predicate each.
 func predTransportProp(r *ev.Rec) func(predCase) ev.Outcome {
 	return func(c predCase) ev.Outcome {
+		o, calls := predTransportCheck(r, c, c.Pred)
+		if c.Then == nil || o.Err != nil || o.Discard || o.Excluded != "" {
+			return o
+		}
+		o2, calls2 := predTransportCheck(r, c, *c.Then)
+		if o2.Err != nil || o2.Discard || o2.Excluded != "" {
+			return o2
+		}
+		o.NonTrivial = o.NonTrivial || o2.NonTrivial
+		have := map[string]bool{}
+		for _, k := range o.Classes {
+			have[k] = true
+		}
+		add := func(k string) {
+			if !have[k] {
+				have[k] = true
+				o.Classes = append(o.Classes, k)
+			}
+		}
+		for _, k := range o2.Classes {
+			add(k)
+		}
+		add("successive_predicates")
+		// pairs made of one call of each predicate
+		if len(calls2) > 0 {
+			for _, k := range overloadPairClasses(calls, calls2, "in_successive_predicates") {
+				add(k)
+			}
+		}
+		return o
+	}
+}
+
+func predTransportCheck(r *ev.Rec, c predCase, pred PX) (ev.Outcome, []callInfo) {
+	var calls []callInfo
+	o := func() ev.Outcome {
 		penv, lenv := c.env()
-		pe, err := typecheckPX(c.Pred, penv, lenv)
+		pe, err := typecheckPX(pred, penv, lenv)
 		if err != nil {
 			return ev.Outcome{Discard: true}
 		}
@@ -459,22 +564,23 @@ func predTransportProp(r *ev.Rec) func(predCase) ev.Outcome {
 		}
 		got, ok, stable, err := transport(pe)
 		if err != nil {
-			return ev.Fail("predicate %s cannot be transported: %v", c.Pred, err)
+			return ev.Fail("predicate %s cannot be transported: %v", pred, err)
 		}
 		if !ok {
-			return ev.Fail("predicate %s uses only functions of this build's function map, but the receiving side reports an unknown function (ok=false)", c.Pred)
+			return ev.Fail("predicate %s uses only functions of this build's function map, but the receiving side reports an unknown function (ok=false)", pred)
 		}
 		w := &walkInfo{exprTypes: map[string]bool{}}
 		walk(pe, got, w)
+		calls = w.calls
 		if w.shapeDiff != "" {
-			return ev.Fail("predicate %s arrives changed: %s", c.Pred, w.shapeDiff)
+			return ev.Fail("predicate %s arrives changed: %s", pred, w.shapeDiff)
 		}
 		if w.utf8Diff != "" {
 			// the recorded finding: encoding/json replaces every byte sequence that is not valid UTF-8 by U+FFFD
-			if r.Known(findingUTF8) && hasInvalidUTF8Const(c.Pred) {
+			if r.Known(findingUTF8) && hasInvalidUTF8Const(pred) {
 				return ev.Outcome{Excluded: findingUTF8, Classes: []string{"excluded_" + findingUTF8}}
 			}
-			return ev.Fail("predicate %s arrives with a changed constant: %s", c.Pred, w.utf8Diff)
+			return ev.Fail("predicate %s arrives with a changed constant: %s", pred, w.utf8Diff)
 		}
 		o := ev.Outcome{}
 		if !stable {
@@ -495,8 +601,9 @@ func predTransportProp(r *ev.Rec) func(predCase) ev.Outcome {
 			}
 		}
 		if lost {
-			return ev.Fail("predicate %s: ok=true but a call has no function bound on the receiving side", c.Pred)
+			return ev.Fail("predicate %s: ok=true but a call has no function bound on the receiving side", pred)
 		}
+		o.Classes = append(o.Classes, overloadPairClasses(w.calls, nil, "in_one_predicate")...)
 		for k := range w.exprTypes {
 			o.Classes = append(o.Classes, "node_"+k)
 		}
@@ -512,7 +619,7 @@ func predTransportProp(r *ev.Rec) func(predCase) ev.Outcome {
 		ea, errA := pe.Materialize(eng.Context(), penv)
 		eb, errB := got.Materialize(eng.Context(), penv)
 		if (errA != nil) != (errB != nil) {
-			return ev.Fail("predicate %s: materialising fails on one side only: sender %v, receiver %v", c.Pred, errA, errB)
+			return ev.Fail("predicate %s: materialising fails on one side only: sender %v, receiver %v", pred, errA, errB)
 		}
 		if errA != nil {
 			o.Classes = append(o.Classes, "materialize_error_both")
@@ -535,7 +642,7 @@ func predTransportProp(r *ev.Rec) func(predCase) ev.Outcome {
 			if sameRes(ra, rb) {
 				continue
 			}
-			msg := fmt.Sprintf("predicate %s on row %v evaluates to %s before the plugin boundary and to %s behind it", c.Pred, gen.Octs(row), ra, rb)
+			msg := fmt.Sprintf("predicate %s on row %v evaluates to %s before the plugin boundary and to %s behind it", pred, gen.Octs(row), ra, rb)
 			if rebound && !reboundOther && r.Known(findingTypeFn) {
 				// the recorded finding: a call of a type-function overload is re-bound to the first type-function overload of
 				// that name. Attributed only if restoring the original bindings (and nothing else) removes the difference.
@@ -555,7 +662,8 @@ func predTransportProp(r *ev.Rec) func(predCase) ev.Outcome {
 			o.Classes = append(o.Classes, "rebound_without_visible_effect")
 		}
 		return o
-	}
+	}()
+	return o, calls
 }
 
 // ---- unknown functions and signatures ---------------------------------------------------------------------------------
@@ -779,6 +887,14 @@ type pgen struct {
 	fields   []fieldSpec // record frame
 	outer    []fieldSpec // enclosing frame
 	seq      int
+	members  []memberHint
+}
+
+// memberHint: in the generated rows, the collection variable coll should often hold the value of x (a variable or a constant), so
+// that x IN coll is not FALSE nearly always.
+type memberHint struct {
+	x    PX
+	coll string
 }
 
 func (g *pgen) label(s string) string {
@@ -976,16 +1092,24 @@ func (g *pgen) call(ov ovRef, depth int) (PX, octosql.Type) {
 		}
 		return PX{Op: "tuple", Args: args}
 	}
+	// a collection column is nullable as often as not (a column inferred from JSON lines is, as soon as one line lacks the key);
+	// the strict overloads then see NULL | List, NULL | Object, NULL | Tuple: one TypeID, Union, for all of them
+	maybeNull := func(t octosql.Type) octosql.Type {
+		if g.ch.pick(2, g.label("nullcoll")) == 0 {
+			return nullable(t)
+		}
+		return t
+	}
 	tupleVar := func() PX {
 		return g.varOf(func(t octosql.Type) bool {
 			return octosql.NonNullable(t).TypeID == octosql.TypeIDTuple && t.TypeID != octosql.TypeIDNull
-		}, tupleIS)
+		}, maybeNull(tupleIS))
 	}
 	listVar := func(of octosql.Type) PX {
 		return g.varOf(func(t octosql.Type) bool {
 			nt := octosql.NonNullable(t)
 			return isListT(t) && nt.List.Element != nil && octosql.NonNullable(*nt.List.Element).Equals(of)
-		}, listOf(of))
+		}, maybeNull(listOf(of)))
 	}
 	switch ov.name {
 	case "<", "<=", ">", ">=":
@@ -998,11 +1122,11 @@ func (g *pgen) call(ov ovRef, depth int) (PX, octosql.Type) {
 	case "len":
 		switch ov.idx {
 		case 1:
-			return fn(g.varOf(isListT, listOf(elem))), octosql.Int
+			return fn(g.varOf(isListT, maybeNull(listOf(elem)))), octosql.Int
 		case 2:
 			return fn(g.varOf(func(t octosql.Type) bool {
 				return octosql.NonNullable(t).TypeID == octosql.TypeIDStruct && t.TypeID != octosql.TypeIDNull
-			}, objAB)), octosql.Int
+			}, maybeNull(objAB))), octosql.Int
 		default:
 			if g.ch.pick(2, g.label("lentuple")) == 0 {
 				return fn(tupleVar()), octosql.Int
@@ -1013,14 +1137,194 @@ func (g *pgen) call(ov ovRef, depth int) (PX, octosql.Type) {
 		return fn(listVar(elem), g.arg(octosql.Int, depth)), elem
 	case "in", "not in":
 		if ov.idx == 0 {
-			return fn(g.arg(elem, depth), listVar(elem)), octosql.Boolean
+			x, l := g.arg(elem, depth), listVar(elem)
+			g.members = append(g.members, memberHint{x, l.Name})
+			return fn(x, l), octosql.Boolean
 		}
 		if g.ch.pick(4, g.label("intuplevar")) == 0 {
-			return fn(g.arg(octosql.Int, depth), tupleVar()), octosql.Boolean
+			x, tv := g.arg(octosql.Int, depth), tupleVar()
+			g.members = append(g.members, memberHint{x, tv.Name})
+			return fn(x, tv), octosql.Boolean
 		}
 		return fn(g.arg(elem, depth), tupleExpr(elem)), octosql.Boolean
 	}
 	panic("no recipe for type-function overload " + ov.name)
+}
+
+// ---- two type-function overloads of one function, both over nullable collections ---------------------------------------------
+
+// typeFnFamily: a function with at least two type-function overloads, and for each of them the collection type its recipe uses
+// (found by asking the type function itself).
+type typeFnFamily struct {
+	name  string
+	idx   []int
+	coll  []octosql.Type // listOf(Int), objAB or tupleIS
+	arity int            // 1: f(coll), 2: f(x, coll)
+}
+
+var typeFnFamilies = func() []typeFnFamily {
+	fm := eng.FunctionMap()
+	names := make([]string, 0, len(fm))
+	for n := range fm {
+		names = append(names, n)
+	}
+	sort.Strings(names)
+	var out []typeFnFamily
+	for _, n := range names {
+		fam := typeFnFamily{name: n}
+		for i, d := range fm[n].Descriptors {
+			if d.TypeFn == nil {
+				continue
+			}
+		probe:
+			for _, coll := range []octosql.Type{listOf(octosql.Int), objAB, tupleIS} {
+				for arity, args := range [][]octosql.Type{nil, {coll}, {octosql.Int, coll}} {
+					if arity == 0 || (fam.arity != 0 && fam.arity != arity) {
+						continue
+					}
+					if _, ok := d.TypeFn(args); ok {
+						fam.idx, fam.coll, fam.arity = append(fam.idx, i), append(fam.coll, coll), arity
+						break probe
+					}
+				}
+			}
+		}
+		if len(fam.idx) >= 2 {
+			out = append(out, fam)
+		}
+	}
+	return out
+}()
+
+// nullableCollVar: a variable that is statically NULL | <a collection of the kind of coll>.
+func (g *pgen) nullableCollVar(coll octosql.Type, elem octosql.Type) PX {
+	fallback := nullable(coll)
+	if coll.TypeID == octosql.TypeIDList {
+		of := elem
+		if of.TypeID == octosql.TypeIDAny {
+			of = []octosql.Type{octosql.Int, octosql.String, octosql.Float, nullable(octosql.Int)}[g.ch.pick(4, g.label("pairlistof"))]
+		}
+		fallback = nullable(listOf(of))
+	}
+	return g.varOf(func(t octosql.Type) bool {
+		if !isNullableCollection(t) || octosql.NonNullable(t).TypeID != coll.TypeID {
+			return false
+		}
+		return elem.TypeID == octosql.TypeIDAny || t.Equals(fallback)
+	}, fallback)
+}
+
+// overloadPair builds two predicates, one over overload a and one over overload b (positions in fam.idx) of the same function,
+// both called with a nullable collection variable and otherwise with the same arguments: on the wire the two calls differ in
+// nothing but the static type behind the NULL | of the collection argument.
+func (g *pgen) overloadPair(fam typeFnFamily, a, b int) (PX, PX) {
+	var x PX
+	elem := octosql.Any
+	if fam.arity == 2 {
+		elem = []octosql.Type{octosql.Int, octosql.String}[g.ch.pick(2, g.label("pairelem"))]
+		x = g.arg(elem, 0)
+	}
+	one := func(k int) PX {
+		v := g.nullableCollVar(fam.coll[k], elem)
+		if fam.arity == 2 {
+			g.members = append(g.members, memberHint{x, v.Name})
+			px := g.fnNamed(fam.name, x, v)
+			if g.ch.pick(4, g.label("pairwrapb")) == 0 {
+				return g.boolOf(px, octosql.Boolean, fam.name)
+			}
+			return px
+		}
+		px := g.fnNamed(fam.name, v)
+		if g.ch.pick(4, g.label("pairwrap")) == 0 {
+			return g.boolOf(px, octosql.Int, fam.name)
+		}
+		n := gen.Int(int64(g.ch.pick(4, g.label("pairlen"))))
+		op := []string{"=", "!=", "<", "<=", ">", ">="}[g.ch.pick(6, g.label("pairop"))]
+		return g.fnNamed(op, px, PX{Op: "const", V: &n})
+	}
+	return one(a), one(b)
+}
+
+func (g *pgen) randomPair() (PX, PX) {
+	fam := typeFnFamilies[g.ch.pick(len(typeFnFamilies), g.label("pairfam"))]
+	a := g.ch.pick(len(fam.idx), g.label("paira"))
+	b := (a + 1 + g.ch.pick(len(fam.idx)-1, g.label("pairb"))) % len(fam.idx)
+	return g.overloadPair(fam, a, b)
+}
+
+func (g *pgen) join(p, q PX) PX {
+	return PX{Op: []string{"and", "or"}[g.ch.pick(2, g.label("pairjoin"))], Args: []PX{p, q}}
+}
+
+// applyMembers rewrites generated rows so that the hinted collections often contain the value looked for.
+func (g *pgen) applyMembers(rows [][]gen.JV) {
+	col := func(name string) int {
+		for i, f := range g.outer {
+			if f.Name == name {
+				return i
+			}
+		}
+		for i, f := range g.fields {
+			if f.Name == name {
+				return len(g.outer) + i
+			}
+		}
+		return -1
+	}
+	for _, h := range g.members {
+		ci := col(h.coll)
+		if ci < 0 {
+			continue
+		}
+		for _, row := range rows {
+			var xv gen.JV
+			switch {
+			case h.x.Op == "const" && h.x.V != nil:
+				xv = *h.x.V
+			case h.x.Op == "var" && col(h.x.Name) >= 0:
+				xv = row[col(h.x.Name)]
+			default:
+				continue
+			}
+			if xv.K == "null" || g.ch.pick(3, g.label("member")) == 0 {
+				continue
+			}
+			cv := row[ci]
+			switch cv.K {
+			case "list":
+				l := append([]gen.JV{}, cv.L...)
+				if len(l) == 0 {
+					// the element type of the column must admit the value
+					if t := octosql.NonNullable(g.typeOf(h.coll)); t.List.Element == nil || xv.Oct().Type().Is(*t.List.Element) != octosql.TypeRelationIs {
+						continue
+					}
+					l = append(l, xv)
+				} else if l[0].K == xv.K {
+					l[g.ch.pick(len(l), g.label("memberpos"))] = xv
+				}
+				cv.L = l
+			case "tuple":
+				l := append([]gen.JV{}, cv.L...)
+				for i := range l {
+					if l[i].K == xv.K {
+						l[i] = xv
+						break
+					}
+				}
+				cv.L = l
+			}
+			row[ci] = cv
+		}
+	}
+}
+
+func (g *pgen) typeOf(name string) octosql.Type {
+	for _, f := range append(append([]fieldSpec{}, g.outer...), g.fields...) {
+		if f.Name == name {
+			return f.T.Oct()
+		}
+	}
+	return octosql.Null
 }
 
 func (g *pgen) fnNamed(name string, args ...PX) PX { return PX{Op: "fn", Name: name, Args: args} }
@@ -1092,8 +1396,12 @@ func (g *pgen) pred(depth int) PX {
 			return g.fnNamed("not", g.pred(depth-1))
 		}
 	}
-	if g.ch.pick(8, g.label("boolleaf")) == 0 {
+	switch k := g.ch.pick(16, g.label("boolleaf")); {
+	case k < 2:
 		return g.arg(octosql.Boolean, 0)
+	case k == 8:
+		// two different type-function overloads of one function over nullable collections, in one predicate
+		return g.join(g.randomPair())
 	}
 	return g.targeted(g.randomTarget(), 1)
 }
@@ -1174,8 +1482,23 @@ func (g *pgen) seedFields() {
 func genPred(t *rapid.T) predCase {
 	g := &pgen{ch: rapidCh{t}}
 	g.seedFields()
-	p := g.pred(2)
-	return predCase{Outer: g.outer, Fields: g.fields, Pred: p, Rows: g.rows(3 + g.ch.pick(4, "nrows"))}
+	var p PX
+	var then *PX
+	switch k := g.ch.pick(16, "casekind"); { // (rapid draws the ends of a range more often than the middle)
+	case k == 6:
+		// the two halves of an overload pair as successive predicates
+		a, b := g.randomPair()
+		p, then = a, &b
+	case k == 9:
+		// any two predicates one after the other
+		a, b := g.pred(1), g.pred(1)
+		p, then = a, &b
+	default:
+		p = g.pred(2)
+	}
+	rows := g.rows(3 + g.ch.pick(4, "nrows"))
+	g.applyMembers(rows)
+	return predCase{Outer: g.outer, Fields: g.fields, Pred: p, Then: then, Rows: rows}
 }
 
 // enumPred: every overload of every function, several fixed variants each.
@@ -1184,9 +1507,40 @@ func enumPred(yield func(predCase) bool) {
 		for v := 0; v < 8; v++ {
 			g := &pgen{ch: &seqCh{s: uint64(i)*1000 + uint64(v)}}
 			p := g.targeted(ov, v%2)
-			c := predCase{Outer: g.outer, Fields: g.fields, Pred: p, Rows: g.rows(5), Target: fmt.Sprintf("%s#%d", ov.name, ov.idx)}
+			rows := g.rows(5)
+			g.applyMembers(rows)
+			c := predCase{Outer: g.outer, Fields: g.fields, Pred: p, Rows: rows, Target: fmt.Sprintf("%s#%d", ov.name, ov.idx)}
 			if !yield(c) {
 				return
+			}
+		}
+	}
+	// every ordered pair of type-function overloads of one function, both over nullable collections: four times joined by AND / OR
+	// in one predicate, four times as two predicates one after the other
+	n := 0
+	for _, fam := range typeFnFamilies {
+		for a := range fam.idx {
+			for b := range fam.idx {
+				if a == b {
+					continue
+				}
+				for v := 0; v < 8; v++ {
+					n++
+					g := &pgen{ch: &seqCh{s: 1000000 + uint64(n)*1000}}
+					p, q := g.overloadPair(fam, a, b)
+					c := predCase{Target: fmt.Sprintf("%s#%d+#%d", fam.name, fam.idx[a], fam.idx[b])}
+					if v%2 == 0 {
+						c.Pred = g.join(p, q)
+					} else {
+						c.Pred, c.Then = p, &q
+					}
+					rows := g.rows(6)
+					g.applyMembers(rows)
+					c.Outer, c.Fields, c.Rows = g.outer, g.fields, rows
+					if !yield(c) {
+						return
+					}
+				}
 			}
 		}
 	}
